@@ -56,6 +56,40 @@ HISTORY_R3 = {
 }
 
 
+HISTORY_R4 = {
+    "C01-r4m1": "missed at first -> a user refinement that presets one field (`rec(base, initial_values=...)`) above a like-named field of another type; independent walk over the dataclass fields",
+    "C02-r4m1": "missed at first -> integer refinements wider than a fresh dSGE gene, judged AFTER mutation / crossover in every representation",
+    "C02-r4m2": "missed at first -> VarRange with non-string options on a str field (class labels)",
+    "C03-r4m1": "missed at first -> a field re-declared with a type of another minimum depth on classes an earlier grammar used",
+    "C04-r4m1": "missed at first -> every corpus grammar once more without one production while the full grammar exists beside it; the language enumerator runs under a time / memory cap",
+    "C04-r4m2": "missed at first -> dependent-sibling grammar in the corpus; membership predicate also for grammars the enumerator does not list",
+    "C05-r4m1": "missed at first -> zero weights among the weighted specs (reported as a broken correspondence)",
+    "C05-r4m2": "missed at first -> chains / cycles of 150 abstract symbols",
+    "C06-r4m1": "missed at first -> a start class that defines `__len__` (an empty program is falsy)",
+    "C06-r4m2": "missed at first -> dSGE genes as large as mutation writes them",
+    "C07-r4m1": "missed at first (the canonical form hides float values) -> re-mapping compares the float values too; fixed plain-float grammars",
+    "C07-r4m2": "missed at first -> grammars with a history (used, re-declared, re-extracted) at level A and against identical fresh classes",
+    "C08-r4m1": "missed at first -> the same seed on used-and-re-declared classes vs fresh classes",
+    "C08-r4m2": "missed at first -> EMULATED MEMORY LAYOUTS: classes built with a metaclass whose hash the harness chooses, so the iteration order of sets of classes is permuted in-process",
+    "C10-r4m1": "missed at first -> creatable set after the history: draw-by-draw against the model and against a grammar freshly extracted from the same classes",
+    "C10-r4m2": "missed at first -> a refinement that sometimes asks for a class the grammar does not know",
+    "C11-r4m1": "missed at first -> both crossover parents re-checked; concrete recursive start symbols",
+    "C11-r4m2": "missed at first -> weighted / switched-off productions in expansion-depthing grammars",
+    "C12-r4m1": "missed at first -> hill climbing on the parallel evaluator with real tree programs",
+    "C13-r4m2": "missed at first -> batches reach the evaluators as lists, tuples and one-shot iterators",
+    "C14-r4m2": "missed at first -> GP with an injected first generation larger than the population",
+    "C15-r4m1": "missed at first -> initialisers on representations whose depth limit equals the grammar minimum (2, 3)",
+    "C16-r4m1": "missed at first -> the same individuals under a problem that is dropped and a NEW problem of the opposite direction",
+    "C16-r4m2": "missed at first -> infinite fitness values",
+    "C17-r4m2": "missed at first -> long-lived step objects reused across problems",
+    "C18-r4m1": "missed at first -> decimal (non-dyadic) weights with zero weights last, draws at the top of the range",
+    "C18-r4m2": "missed at first -> negative genes in a dynamic-SGE genotype",
+    "C19-r4m1": "missed at first (the stack chooser's own weights were taken as ground truth) -> they are compared with the grammar's weights",
+    "C20-r4m1": "missed at first -> strict-improvement flags also for a one-objective problem built from a one-element list",
+    "C20-r4m2": "missed at first -> individuals that carry a fitness for another, live problem",
+}
+
+
 def main():
     old = (VERIF / "seeded/INDEX.md").read_text() if (VERIF / "seeded/INDEX.md").exists() else ""
     hist = {}
@@ -65,6 +99,7 @@ def main():
             hist[m.group(1)] = m.group(2).strip()
     hist.update(HISTORY_R2)
     hist.update(HISTORY_R3)
+    hist.update(HISTORY_R4)
     rows, caught = [], 0
     dirs = sorted(p for p in (VERIF / "seeded").iterdir() if p.is_dir())
     for d in dirs:
@@ -77,8 +112,9 @@ def main():
         caught += ok
         rows.append(f"| {d.name} | {prop} | {what} | {'yes' if ok else 'NO'} | {chk.get('first', '')[:150].replace('|', '/')} | {hist.get(d.name, FIRST)} |")
     n = len(dirs)
-    r1 = sum(1 for d in dirs if "-r2" not in d.name and "-r3" not in d.name)
+    r1 = sum(1 for d in dirs if "-r2" not in d.name and "-r3" not in d.name and "-r4" not in d.name)
     r2 = sum(1 for d in dirs if "-r2" in d.name)
+    r4 = sum(1 for d in dirs if "-r4" in d.name)
     out = f"""# Seeded changes (by fresh sub-agents that saw only one property's text)
 
 Each directory holds `patch.diff` (apply with `git apply` in a checkout of /repo), `demo.py` (exit 0 / PASS on the unchanged library,
@@ -86,8 +122,9 @@ exit 1 / FAIL with the change; `PYTHONPATH=<checkout> /venv/bin/python demo.py`)
 what was run, which checks catch it).  None of these changes is ever applied to /repo; `harness/tools/seed_eval.py` / `mutant_run.sh` run the checks
 against scratch copies (`VERIF_REPO`).  All {n} changes keep the repository's fast test subset green (the authors also ran the slow parts touching their files).
 Round 1: {r1} changes (`Cxx-mK`); round 2: {r2} changes (`Cxx-r2mK`), whose authors were asked to look beyond the obvious function;
-round 3: {n - r1 - r2} changes (`Cxx-r3mK`), whose authors were told that a randomised differential test on small inputs exists and asked for
-rarely used library features, narrow triggers and state carried between calls.
+round 3: {n - r1 - r2 - r4} changes (`Cxx-r3mK`), whose authors were told that a randomised differential test on small inputs exists and asked for
+rarely used library features, narrow triggers and state carried between calls; round 4: {r4} changes (`Cxx-r4mK`), same brief plus the list of
+everything tried before for that property ("find something genuinely different").
 
 **{caught} of {n} are detected by the quick check of the property they break** (the `history` column says which were missed on their first evaluation and what was strengthened).
 
